@@ -17,11 +17,13 @@ class C13(scen.PairProp):
                 "Wheatley.C13.unexpected_stroke_ignored",
                 "Wheatley.C13.inertia_setting_applies",
                 "Wheatley.C13.expectation_used_once",
-                "Wheatley.C13.cli_inertia"]
+                "Wheatley.C13.cli_inertia",
+                "Wheatley.C13.onBellRing_deaf", "Wheatley.C13.mainStep_deaf", "Wheatley.C13.deliver_deaf",
+                "Wheatley.C13.line_never_moves"]
     # the command line: what of the built configuration this property is about
     cli_fields = ['inertia']
     level_text = ("theorems: with inertia 1 a data point never changes start or interval (the early return), so the "
-                  "line after row 0 is independent of every later strike; exp(-9) < 1/1000 (proved for the real "
+                  "line after row 0 is independent of every later strike; system level (line_never_moves): in every state of every run of the timed world on events other than Look To and settings, a rhythm with inertia 1 past its first row keeps its line - start and interval; exp(-9) < 1/1000 (proved for the real "
                   "exponential), hence a strike 3 or more places from its slot gets a weight below the rejection "
                   "threshold, is filtered out at once, and on a settled data set (all points on the line) leaves data "
                   "set and line exactly as they were. correspondence: pairs of keep-going sessions - inertia 1 with "
